@@ -74,7 +74,11 @@ func (g *Graph) NumEdges() int {
 type Monitor struct {
 	Init string
 	Step func(state string, ev *Event) string
+	// Also: event kinds that are invisible to most monitors (type tests of the dispatch) unless asked for
+	Also map[string]bool
 }
+
+var quietOps = map[string]bool{"typetest": true, "has": true, "maplookup": true}
 
 type Witness struct {
 	Msg   string
@@ -103,7 +107,7 @@ func (g *Graph) Run(mon Monitor) []Witness {
 		it := queue[qi]
 		for _, e := range g.Out[it.ps.node] {
 			ms := it.ps.ms
-			if e.Ev != nil {
+			if e.Ev != nil && (!quietOps[e.Ev.Op] || mon.Also[e.Ev.Op]) {
 				ms = mon.Step(ms, e.Ev)
 			}
 			if ms == "" {
